@@ -16,6 +16,7 @@ import (
 	"sort"
 	"strconv"
 	"sync"
+	"sync/atomic"
 )
 
 type Parked struct {
@@ -297,3 +298,12 @@ func (s *Sched) Forget(name string) {
 	delete(s.parked, name)
 	s.mu.Unlock()
 }
+
+// Epoch identifies the simulated process generation: package-level simulator-owned state in
+// the code under test (simsync) is reset when it changes, as a restart of a real process
+// would do. The harness bumps it at the start of every run (instances booted within one run
+// share package-level state, as listeners of one real process do).
+var epoch atomic.Uint64
+
+func Epoch() uint64 { return epoch.Load() }
+func NextEpoch()    { epoch.Add(1) }
